@@ -3,12 +3,15 @@ package main
 import (
 	"encoding/json"
 	"fmt"
+	"hash/fnv"
 	"os"
 	"path/filepath"
+	"regexp"
 	"sort"
 	"strings"
 	"time"
 
+	"github.com/cloudflare/pint/internal/git"
 	"github.com/cloudflare/pint/verifharness/hx"
 )
 
@@ -123,16 +126,22 @@ func c03Used(f c03File) map[string]bool {
 }
 
 // one random edit of the tree; returns a description
-func c03Op(r *hx.Run, t *c03Tree, nextID *int) string {
+func c03Op(r *hx.Run, t *c03Tree, nextID *int, base c03Tree) string {
 	rr := r.Rng
 	tree := *t
+	var free []string // base paths not in use now
+	for _, f := range base {
+		if _, taken := tree.byPath(f.Path); !taken {
+			free = append(free, f.Path)
+		}
+	}
 	pickFile := func() int {
 		if len(tree) == 0 {
 			return -1
 		}
 		return rr.Intn(len(tree))
 	}
-	switch rr.Intn(11) {
+	switch rr.Intn(13) {
 	case 0: // add file
 		f := c03File{ID: *nextID, Path: fmt.Sprintf("rules/f%d.yml", *nextID)}
 		*nextID++
@@ -215,6 +224,32 @@ func c03Op(r *hx.Run, t *c03Tree, nextID *int) string {
 			tree[i].Rules[k].Expr = hx.Pick(rr, c03Exprs) + " + 0"
 			return "rename " + old + " -> " + tree[i].Path + " and edit " + tree[i].Rules[k].Name
 		}
+	case 11: // rename a file onto a path that held another file at base and is free now
+		if i := pickFile(); i >= 0 && len(free) > 0 {
+			p := hx.Pick(rr, free)
+			if _, taken := tree.byPath(p); !taken {
+				old := tree[i].Path
+				tree[i].Path = p
+				return "rename " + old + " -> previously used " + p
+			}
+		}
+	case 12: // re-create a file at a path that is free now, with rules that may repeat the old ones
+		if len(free) > 0 {
+			p := hx.Pick(rr, free)
+			if _, taken := tree.byPath(p); !taken {
+				f := c03File{ID: *nextID, Path: p}
+				*nextID++
+				if bf, ok := base.byPath(p); ok && rr.Intn(2) == 0 {
+					f.Rules = append(f.Rules, bf.Rules...)
+				}
+				u := c03Used(f)
+				for k, n := 0, rr.Intn(2); k < n || len(f.Rules) == 0; k++ {
+					f.Rules = append(f.Rules, c03RandRule(r, u))
+				}
+				*t = append(tree, f)
+				return "re-create " + p
+			}
+		}
 	case 10: // file-level disable comment (changes every rule's effective content)
 		if i := pickFile(); i >= 0 {
 			if len(tree[i].FileC) > 0 {
@@ -235,42 +270,107 @@ type c03Expect struct {
 	State string `json:"state"` // added | modified | renamed | unmodified | changed (renamed and edited: modified or renamed)
 }
 
-// reference classification from the generator's own history
-func c03Reference(cs c03Case) []c03Expect {
-	head := cs.Commits[len(cs.Commits)-1]
-	baseByID := map[int]c03File{}
-	for _, f := range cs.Base {
-		baseByID[f.ID] = f
+type c03Rec struct {
+	C   int    `json:"c"`
+	St  string `json:"st"`
+	Src string `json:"src"`
+	Dst string `json:"dst"`
+	Ex  bool   `json:"ex"`
+}
+
+func c03Hash(parts ...string) uint32 {
+	h := fnv.New32a()
+	for _, p := range parts {
+		h.Write([]byte(p))
+		h.Write([]byte{0})
 	}
+	return h.Sum32() % 1000000
+}
+
+func (t c03Tree) byPath(p string) (c03File, bool) {
+	for _, f := range t {
+		if f.Path == p {
+			return f, true
+		}
+	}
+	return c03File{}, false
+}
+
+// lineage of every file at HEAD from git's own records: a plain map simulation, independent of pint's fold.
+// origin "" = created on the branch; untouched files are absent from the result.
+func c03Lineage(base c03Tree, recs []c03Rec) (origin map[string]string) {
+	type info struct {
+		origin  string
+		touched bool
+	}
+	live := map[string]info{}
+	for _, f := range base {
+		live[f.Path] = info{origin: f.Path}
+	}
+	dead := map[string][]info{} // stack per path
+	for _, r := range recs {
+		switch r.St {
+		case "A", "C":
+			if st := dead[r.Dst]; len(st) > 0 {
+				live[r.Dst] = info{origin: st[len(st)-1].origin, touched: true}
+				dead[r.Dst] = st[:len(st)-1]
+			} else {
+				live[r.Dst] = info{origin: "", touched: true}
+			}
+		case "D":
+			if f, ok := live[r.Src]; ok {
+				dead[r.Src] = append(dead[r.Src], f)
+				delete(live, r.Src)
+			}
+		default:
+			if f, ok := live[r.Src]; ok {
+				delete(live, r.Src)
+				live[r.Dst] = info{origin: f.origin, touched: true}
+			}
+		}
+	}
+	origin = map[string]string{}
+	for p, f := range live {
+		if f.touched {
+			origin[p] = f.origin
+		}
+	}
+	return origin
+}
+
+// reference classification: direct comparison of base and HEAD content of each rule's file, following the renames
+// git reports
+func c03Reference(base, head c03Tree, origin map[string]string) []c03Expect {
 	var out []c03Expect
 	for _, f := range head {
-		bf, existed := baseByID[f.ID]
+		o, touched := origin[f.Path]
+		bf, existed := base.byPath(o)
+		if !touched {
+			bf, existed, o = f, true, f.Path
+		}
 		for _, ru := range f.Rules {
 			e := c03Expect{Path: f.Path, Name: ru.Name, Alert: ru.Alert}
-			switch {
-			case !existed:
-				e.State = "added"
-			default:
-				var prev *c03Rule
+			var prev *c03Rule
+			if existed && o != "" {
 				for i := range bf.Rules {
 					if bf.Rules[i].Alert == ru.Alert && bf.Rules[i].Name == ru.Name {
 						prev = &bf.Rules[i]
 					}
 				}
-				same := prev != nil && prev.sameContent(ru) && fmt.Sprint(bf.FileC) == fmt.Sprint(f.FileC)
-				moved := bf.Path != f.Path
-				switch {
-				case prev == nil:
-					e.State = "added"
-				case same && !moved:
-					e.State = "unmodified"
-				case same && moved:
-					e.State = "renamed"
-				case !same && !moved:
-					e.State = "modified"
-				default:
-					e.State = "changed"
-				}
+			}
+			same := prev != nil && prev.sameContent(ru) && fmt.Sprint(bf.FileC) == fmt.Sprint(f.FileC)
+			moved := o != f.Path
+			switch {
+			case prev == nil:
+				e.State = "added"
+			case same && !moved:
+				e.State = "unmodified"
+			case same && moved:
+				e.State = "renamed"
+			case !same && !moved:
+				e.State = "modified"
+			default:
+				e.State = "changed"
 			}
 			out = append(out, e)
 		}
@@ -326,6 +426,19 @@ func c03Write(dir string, t c03Tree) {
 	}
 }
 
+func c03SnapJSON(t c03Tree) []any {
+	out := []any{}
+	for _, f := range t {
+		rs := []any{}
+		for _, ru := range f.Rules {
+			rs = append(rs, map[string]any{"a": ru.Alert, "n": ru.Name,
+				"c": c03Hash(ru.Expr, ru.For, ru.Label, fmt.Sprint(ru.Comments)), "d": c03Hash(fmt.Sprint(f.FileC), fmt.Sprint(ru.Comments))})
+		}
+		out = append(out, map[string]any{"p": f.Path, "r": rs})
+	}
+	return out
+}
+
 func c03Eval(r *hx.Run, cs c03Case) {
 	dir, err := os.MkdirTemp("", "c03-")
 	if err != nil {
@@ -339,18 +452,19 @@ func c03Eval(r *hx.Run, cs c03Case) {
 	hx.Git(dir, "add", "-A")
 	hx.Git(dir, "commit", "-q", "--allow-empty", "-m", "base")
 	hx.Git(dir, "checkout", "-q", "-b", "feature")
-	made := 0
+	snaps := []c03Tree{cs.Base} // tree after every commit that git actually made
 	for i, t := range cs.Commits {
 		c03Write(dir, t)
 		hx.Git(dir, "add", "-A")
 		if res := hx.Git(dir, "commit", "-q", "-m", fmt.Sprintf("c%d %s", i, cs.Ops[i])); res.Exit == 0 {
-			made++
+			snaps = append(snaps, t)
 		}
 	}
-	if made == 0 {
+	if len(snaps) == 1 {
 		r.Count("no-effective-commit")
 		return
 	}
+	head := snaps[len(snaps)-1]
 	if cs.BaseMoves {
 		hx.Git(dir, "checkout", "-q", "main")
 		_ = os.WriteFile(filepath.Join(dir, "README"), []byte("readme changed on main\n"), 0o644)
@@ -361,6 +475,73 @@ func c03Eval(r *hx.Run, cs c03Case) {
 		hx.Git(dir, "commit", "-q", "-m", "main moves on")
 		hx.Git(dir, "checkout", "-q", "feature")
 	}
+	// git's own view of the branch
+	idx := map[string]int{}
+	for i, h := range strings.Fields(hx.Git(dir, "rev-list", "--reverse", "--first-parent", "main..HEAD").Stdout) {
+		idx[h] = i + 1
+	}
+	var recs []c03Rec
+	cur := 0
+	for _, l := range strings.Split(hx.Git(dir, "log", "--reverse", "--no-merges", "--first-parent", "--format=%H", "--name-status", "main..HEAD").Stdout, "\n") {
+		parts := strings.Split(l, "\t")
+		if len(parts) == 1 {
+			if parts[0] != "" {
+				cur = idx[parts[0]]
+			}
+			continue
+		}
+		if !strings.HasPrefix(parts[len(parts)-1], "rules/") {
+			continue
+		}
+		recs = append(recs, c03Rec{C: cur, St: parts[0][:1], Src: parts[1], Dst: parts[len(parts)-1]})
+		r.Count("record:" + parts[0][:1])
+	}
+	// (1) the fold over the records: real git.Changes against the model
+	runner := func(args ...string) ([]byte, error) {
+		res := hx.Git(dir, args...)
+		if res.Exit != 0 {
+			return nil, fmt.Errorf("git %v: %s", args, res.Stderr)
+		}
+		return []byte(res.Stdout), nil
+	}
+	chs, cerr := git.Changes(runner, "main", git.NewPathFilter([]*regexp.Regexp{regexp.MustCompile("^rules/.*$")}, nil, nil))
+	if cerr != nil {
+		r.Violate(hx.Violation{Class: "changes-error", Input: cs, Observed: cerr.Error()})
+		return
+	}
+	var fold []string
+	for _, c := range chs {
+		var ci []string
+		for _, h := range c.Commits {
+			ci = append(ci, fmt.Sprint(idx[h]))
+		}
+		fold = append(fold, fmt.Sprintf("%c:%s:%s:%s", rune(c.Status), c.Path.Before.Name, c.Path.After.Name, strings.Join(ci, ",")))
+	}
+	rj, _ := json.Marshal(map[string]any{"records": recs})
+	r.Op("gitfold\t"+string(rj), strings.Join(fold, ";"))
+	// model-decided: is the history well formed for the reference tree, and does the fold agree with the lineage
+	var basePaths []string
+	for _, f := range cs.Base {
+		basePaths = append(basePaths, f.Path)
+	}
+	origin := c03Lineage(cs.Base, recs)
+	var lin []string
+	for _, c := range chs {
+		if c.Status != git.FileDeleted {
+			if _, ok := origin[c.Path.After.Name]; ok {
+				var ci []string
+				for _, h := range c.Commits {
+					ci = append(ci, fmt.Sprint(idx[h]))
+				}
+				lin = append(lin, fmt.Sprintf("%s<%s<%s", c.Path.After.Name, c.Path.Before.Name, strings.Join(ci, ",")))
+			}
+		}
+	}
+	sort.Strings(lin)
+	wj, _ := json.Marshal(map[string]any{"records": recs, "base": basePaths})
+	r.Op("c03wf\t"+string(wj), "true "+strings.Join(lin, ";"))
+
+	// (2) end to end: pint ci with one marker block per state
 	res := hx.RunCmd(dir, 90*time.Second, []string{"GIT_CONFIG_GLOBAL=/dev/null"}, hx.PintBin(), "--offline", "-l", "error", "--no-color", "--show-duplicates", "ci", "--base-branch", "main", "--json", "out.json")
 	var reports []c05JSON
 	b, rerr := os.ReadFile(filepath.Join(dir, "out.json"))
@@ -369,8 +550,6 @@ func c03Eval(r *hx.Run, cs c03Case) {
 		return
 	}
 	_ = json.Unmarshal(b, &reports)
-	// markers per (path, first line of the name) -> we key by path + rule name via the report's lines: find rule by line
-	head := cs.Commits[len(cs.Commits)-1]
 	lineOf := map[string]map[int]string{} // path -> line of "- alert:/record:" -> kind|name
 	for _, f := range head {
 		lineOf[f.Path] = map[int]string{}
@@ -391,7 +570,7 @@ func c03Eval(r *hx.Run, cs c03Case) {
 		}
 		var marker string
 		for _, m := range []string{"added", "modified", "renamed", "unmodified", "default"} {
-			if strings.Contains(rep.Details+rep.Problem, "marker"+m+"zz") {
+			if strings.Contains(rep.Details, "marker"+m+"zz") {
 				marker = m
 			}
 		}
@@ -408,9 +587,32 @@ func c03Eval(r *hx.Run, cs c03Case) {
 			}
 		}
 	}
-	exp := c03Reference(cs)
-	r.Case(fmt.Sprint(cs), len(cs.Commits) > 0)
-	r.Count(fmt.Sprintf("commits:%d", len(cs.Commits)))
+	// model correspondence on states
+	var implStates []string
+	for _, f := range head {
+		for _, ru := range f.Rules {
+			k := fmt.Sprintf("%s|%v|%s", f.Path, ru.Alert, ru.Name)
+			var ms []string
+			for _, m := range []string{"added", "modified", "renamed", "unmodified"} {
+				if got[k][m] {
+					ms = append(ms, m)
+				}
+			}
+			implStates = append(implStates, k+"="+strings.Join(ms, "+"))
+		}
+	}
+	sort.Strings(implStates)
+	var sj []any
+	for _, t := range snaps {
+		sj = append(sj, c03SnapJSON(t))
+	}
+	oj, _ := json.Marshal(map[string]any{"records": recs, "snaps": sj})
+	r.Op("c03states\t"+string(oj), strings.Join(implStates, ";"))
+
+	// (3) the property itself against the reference
+	exp := c03Reference(cs.Base, head, origin)
+	r.Case(fmt.Sprint(cs), true)
+	r.Count(fmt.Sprintf("commits:%d", len(snaps)-1))
 	for _, e := range exp {
 		r.Count("expected:" + e.State)
 		k := fmt.Sprintf("%s|%v|%s", e.Path, e.Alert, e.Name)
@@ -427,7 +629,7 @@ func c03Eval(r *hx.Run, cs c03Case) {
 			// an untouched rule is never reported as changed; the CI default block must not run on it
 			ok = !changedMarkers && !ms["default"] && ms["unmodified"]
 		case "changed":
-			ok = (ms["modified"] || ms["renamed"] || ms["added"]) && ms["default"] && !ms["unmodified"]
+			ok = (ms["modified"] || ms["renamed"]) && ms["default"] && !ms["unmodified"] && !ms["added"]
 		default:
 			ok = ms[e.State] && ms["default"] && !ms["unmodified"]
 			for _, other := range []string{"added", "modified", "renamed"} {
@@ -437,12 +639,12 @@ func c03Eval(r *hx.Run, cs c03Case) {
 			}
 		}
 		if !ok {
-			r.Violate(hx.Violation{Class: "state:" + e.State, Input: cs, Observed: map[string]any{"rule": k, "markers": have, "stderr": tail(res.Stderr, 400)},
+			r.Violate(hx.Violation{Class: "state:" + e.State, Input: cs, Observed: map[string]any{"rule": k, "markers": have, "records": recs, "changes": fold},
 				Expected: "marker of state " + e.State + " (and the CI default block iff the rule changed)"})
 			return
 		}
 	}
-	r.Sample(map[string]any{"ops": cs.Ops, "expected": exp})
+	r.Sample(map[string]any{"ops": cs.Ops, "records": recs, "expected": exp})
 }
 
 func runC03(r *hx.Run, replay string) {
@@ -476,7 +678,68 @@ func runC03(r *hx.Run, replay string) {
 		cs := c03Case{Base: base, BaseMoves: rr.Intn(4) == 0}
 		cur := base.clone()
 		var snapshots []c03Tree
-		for c, n := 0, 1+rr.Intn(4); c < n; c++ {
+		if len(base) >= 2 && rr.Intn(4) == 0 {
+			// scripted path-reuse histories, one step per commit
+			commit := func(desc string) {
+				snapshots = append(snapshots, cur.clone())
+				cs.Commits = append(cs.Commits, cur.clone())
+				cs.Ops = append(cs.Ops, desc)
+			}
+			a, b := 0, 1
+			pa, pb := cur[a].Path, cur[b].Path
+			editRule := func(i int) {
+				k := rr.Intn(len(cur[i].Rules))
+				// sometimes make the rule equal to the same-named rule of the other base file
+				cur[i].Rules[k].Expr = hx.Pick(rr, c03Exprs)
+			}
+			switch rr.Intn(4) {
+			case 0:
+				// both files carry a rule of the same name
+				shared := c03Rule{Name: "shared:rule", Expr: "up == 1"}
+				base[a].Rules = append(base[a].Rules, shared)
+				shared.Expr = "up == 2"
+				base[b].Rules = append(base[b].Rules, shared)
+				cs.Base = base
+				cur = base.clone()
+				cur = append(cur[:b:b], cur[b+1:]...)
+				commit("delete " + pb)
+				cur[a].Path = pb
+				commit("rename " + pa + " -> " + pb)
+				cur[a].Rules[len(cur[a].Rules)-1].Expr = hx.Pick(rr, []string{"up == 2", "up == 3"})
+				commit("edit shared:rule in " + pb)
+			case 1:
+				cur = append(cur[:b:b], cur[b+1:]...)
+				commit("delete " + pb)
+				cur[a].Path = pb
+				commit("rename " + pa + " -> " + pb)
+				keep := cur[a]
+				cur = append(cur[:a:a], cur[a+1:]...)
+				commit("delete " + pb + " again")
+				keep.Rules = append([]c03Rule{}, keep.Rules...)
+				cur = append(cur, keep)
+				editRule(len(cur) - 1)
+				commit("re-create " + pb)
+			case 2:
+				cur[a].Path = "rules/elsewhere.yml"
+				commit("rename " + pa + " -> rules/elsewhere.yml")
+				nf := c03File{ID: nextID, Path: pa, Rules: append([]c03Rule{}, base[a].Rules...)}
+				nextID++
+				cur = append(cur, nf)
+				commit("re-create " + pa + " with the old rules")
+				editRule(len(cur) - 1)
+				commit("edit " + pa)
+			default:
+				editRule(a)
+				commit("edit " + pa)
+				cur[a].Path = "rules/step1.yml"
+				commit("rename " + pa + " -> rules/step1.yml")
+				editRule(a)
+				commit("edit rules/step1.yml")
+				cur[a].Path = "rules/step2.yml"
+				commit("rename rules/step1.yml -> rules/step2.yml")
+			}
+		}
+		for c, n := 0, rr.Intn(4); c < n || len(cs.Commits) == 0; c++ {
 			var descs []string
 			if rr.Intn(6) == 0 && len(snapshots) > 0 {
 				// edit-then-revert: go back to an earlier tree
@@ -484,7 +747,7 @@ func runC03(r *hx.Run, replay string) {
 				descs = append(descs, "revert to an earlier tree")
 			} else {
 				for o, m := 0, 1+rr.Intn(2); o < m; o++ {
-					descs = append(descs, c03Op(r, &cur, &nextID))
+					descs = append(descs, c03Op(r, &cur, &nextID, base))
 				}
 			}
 			snapshots = append(snapshots, cur.clone())
